@@ -1,8 +1,135 @@
-(* C02 — outbound packets are spec-conformant.  Only statements; proofs live in CodecProofs/Enc*.v *)
+(* C02 — outbound packets are spec-conformant and carry exactly what the user supplied; the emitted byte
+   stream does not depend on how the output buffer space is sized or fragmented.
+   Only statements; proofs live in CodecProofs/Enc*.v.
+   Models: Codec/Steps.v (Encoder::encode), Codec/ImplEncode.v (the packet encoders), Codec/SpecDecodeC2S.v
+   (reference decoder written from the OASIS texts), Codec/ValidC2S.v (valid / canon). *)
 From GM Require Import Base.Prelude Base.Outcome Codec.Prim Codec.Packets Codec.Steps Codec.ImplEncode
-  Codec.SpecDecodeC2S Codec.ValidC2S.
+  Codec.SpecDecodeC2S Codec.ValidC2S CodecProofs.EncPrim CodecProofs.EncFrag CodecProofs.EncAck
+  CodecProofs.EncDisc CodecProofs.EncSub CodecProofs.EncPub CodecProofs.EncCon.
 Open Scope N_scope.
 
+(* ---------- fragmentation ---------- *)
+
+(* One call of Encoder::encode on a buffer of capacity cap >= 4 already holding fill <= cap bytes: what it
+   appends, followed by what the remaining steps produce, is what all steps produce (errors included:
+   [then_rest out rest] = do r' <- flatten rest ; Ok (out ++ r')); it never writes beyond the capacity. *)
+Theorem C02_fragmentation : forall steps fill cap out rest,
+  fill <= cap -> 4 <= cap -> encode_call steps fill cap = Ok (out, rest) ->
+  flatten steps = then_rest out rest /\ fill + len out <= cap.
+Proof. exact encode_call_prefix. Qed.
+
+Theorem C02_fragmentation_ok : forall steps fill cap out rest r',
+  fill <= cap -> 4 <= cap -> encode_call steps fill cap = Ok (out, rest) -> flatten rest = Ok r' ->
+  flatten steps = Ok (out ++ r').
+Proof. exact encode_call_ok_form. Qed.
+
+(* progress whenever 4 bytes are free: bytes are emitted or a step is retired *)
+Theorem C02_fragmentation_progress : forall steps fill cap out rest,
+  fill + 4 <= cap -> steps <> [] -> encode_call steps fill cap = Ok (out, rest) ->
+  out <> [] \/ (length rest < length steps)%nat.
+Proof. exact encode_call_progress. Qed.
+
+(* any sequence of calls — any capacities >= 4, any prefills — that ends with an empty step queue emits
+   exactly the unfragmented byte string; unbounded, by induction over the sequence *)
+Theorem C02_fragmentation_any_sequence : forall steps bs, enc_run steps bs -> flatten steps = Ok bs.
+Proof. exact enc_run_flatten. Qed.
+
+(* the same for the loop the facade / a driver runs (buffers from a list, the last one reused) *)
+Theorem C02_fragmentation_driver_loop : forall fuel steps bufs last bs,
+  encode_seq fuel steps bufs last = Ok (Some bs) -> flatten steps = Ok bs.
+Proof. exact encode_seq_flatten. Qed.
+
+(* and one sufficiently large buffer takes everything in one call *)
+Theorem C02_unfragmented : forall steps bs fill cap,
+  flatten steps = Ok bs -> 4 <= cap -> fill + len bs + 4 <= cap -> encode_call steps fill cap = Ok (bs, []).
+Proof. exact encode_call_unfragmented. Qed.
+
+(* ---------- per packet kind: valid packet -> encoder succeeds, reference decoder returns canon ---------- *)
+
+Theorem C02_Pingreq : forall v r,
+  exists bs, impl_encode_all v Pingreq r = Ok bs /\ spec_decode v bs = Some (canon v r Pingreq, []).
+Proof. exact pingreq_rt. Qed.
+
+Theorem C02_Puback_V5 : forall a r, valid V5 r (Puback a) = true ->
+  exists bs, impl_encode_all V5 (Puback a) r = Ok bs /\ spec_decode V5 bs = Some (canon V5 r (Puback a), []).
+Proof. exact puback_rt5. Qed.
+Theorem C02_Pubrec_V5 : forall a r, valid V5 r (Pubrec a) = true ->
+  exists bs, impl_encode_all V5 (Pubrec a) r = Ok bs /\ spec_decode V5 bs = Some (canon V5 r (Pubrec a), []).
+Proof. exact pubrec_rt5. Qed.
+Theorem C02_Pubrel_V5 : forall a r, valid V5 r (Pubrel a) = true ->
+  exists bs, impl_encode_all V5 (Pubrel a) r = Ok bs /\ spec_decode V5 bs = Some (canon V5 r (Pubrel a), []).
+Proof. exact pubrel_rt5. Qed.
+Theorem C02_Pubcomp_V5 : forall a r, valid V5 r (Pubcomp a) = true ->
+  exists bs, impl_encode_all V5 (Pubcomp a) r = Ok bs /\ spec_decode V5 bs = Some (canon V5 r (Pubcomp a), []).
+Proof. exact pubcomp_rt5. Qed.
+Theorem C02_Puback_V311 : forall a r, valid V311 r (Puback a) = true ->
+  exists bs, impl_encode_all V311 (Puback a) r = Ok bs /\ spec_decode V311 bs = Some (canon V311 r (Puback a), []).
+Proof. exact puback_rt311. Qed.
+Theorem C02_Pubrec_V311 : forall a r, valid V311 r (Pubrec a) = true ->
+  exists bs, impl_encode_all V311 (Pubrec a) r = Ok bs /\ spec_decode V311 bs = Some (canon V311 r (Pubrec a), []).
+Proof. exact pubrec_rt311. Qed.
+Theorem C02_Pubrel_V311 : forall a r, valid V311 r (Pubrel a) = true ->
+  exists bs, impl_encode_all V311 (Pubrel a) r = Ok bs /\ spec_decode V311 bs = Some (canon V311 r (Pubrel a), []).
+Proof. exact pubrel_rt311. Qed.
+Theorem C02_Pubcomp_V311 : forall a r, valid V311 r (Pubcomp a) = true ->
+  exists bs, impl_encode_all V311 (Pubcomp a) r = Ok bs /\ spec_decode V311 bs = Some (canon V311 r (Pubcomp a), []).
+Proof. exact pubcomp_rt311. Qed.
+
+Theorem C02_Disconnect_V5 : forall d r, valid V5 r (Disconnect d) = true ->
+  exists bs, impl_encode_all V5 (Disconnect d) r = Ok bs /\ spec_decode V5 bs = Some (canon V5 r (Disconnect d), []).
+Proof. exact disconnect_rt5. Qed.
+(* MQTT 3.1.1 DISCONNECT has no content: every DisconnectPacket becomes the two bytes E0 00 *)
+Theorem C02_Disconnect_V311 : forall d r,
+  exists bs, impl_encode_all V311 (Disconnect d) r = Ok bs /\ spec_decode V311 bs = Some (canon V311 r (Disconnect d), []).
+Proof. exact disconnect_rt311. Qed.
+
+Theorem C02_Auth_V5 : forall a r, valid V5 r (Auth a) = true ->
+  exists bs, impl_encode_all V5 (Auth a) r = Ok bs /\ spec_decode V5 bs = Some (canon V5 r (Auth a), []).
+Proof. exact auth_rt5. Qed.
+(* MQTT 3.1.1 has no AUTH packet: the encoder refuses, nothing is emitted *)
+Theorem C02_Auth_V311_refused : forall a r, impl_encode_all V311 (Auth a) r = Err EEncodingFailure.
+Proof. exact auth_311_refused. Qed.
+
+Theorem C02_Unsubscribe_V5 : forall u r, valid V5 r (Unsubscribe u) = true ->
+  exists bs, impl_encode_all V5 (Unsubscribe u) r = Ok bs /\ spec_decode V5 bs = Some (canon V5 r (Unsubscribe u), []).
+Proof. exact unsubscribe_rt5. Qed.
+Theorem C02_Unsubscribe_V311 : forall u r, valid V311 r (Unsubscribe u) = true ->
+  exists bs, impl_encode_all V311 (Unsubscribe u) r = Ok bs /\ spec_decode V311 bs = Some (canon V311 r (Unsubscribe u), []).
+Proof. exact unsubscribe_rt311. Qed.
+
+(* SUBSCRIBE.  History: with the model of the code before commit d62c54a in /repo this property was REFUTED for
+   MQTT5 packets carrying a subscription identifier (property 0x0B written as a four-byte integer instead of a
+   Variable Byte Integer, D3); the repaired encoder satisfies it for every valid SUBSCRIBE.  The old witness is
+   corpus/C02/d3_subscribe_subid.txt and CodecProofs/EncSub.v d3_witness_now_conformant. *)
+Theorem C02_Subscribe_V5 : forall s r, valid V5 r (Subscribe s) = true ->
+  exists bs, impl_encode_all V5 (Subscribe s) r = Ok bs /\ spec_decode V5 bs = Some (canon V5 r (Subscribe s), []).
+Proof. exact subscribe_rt5. Qed.
+Theorem C02_Subscribe_V311 : forall s r, valid V311 r (Subscribe s) = true ->
+  exists bs, impl_encode_all V311 (Subscribe s) r = Ok bs /\ spec_decode V311 bs = Some (canon V311 r (Subscribe s), []).
+Proof. exact subscribe_rt311. Qed.
+
+(* PUBLISH under every alias resolution r = (skip_topic, alias) *)
+Theorem C02_Publish_V5 : forall p r, valid V5 r (Publish p) = true ->
+  exists bs, impl_encode_all V5 (Publish p) r = Ok bs /\ spec_decode V5 bs = Some (canon V5 r (Publish p), []).
+Proof. exact publish_rt5. Qed.
+Theorem C02_Publish_V311 : forall p r, valid V311 r (Publish p) = true ->
+  exists bs, impl_encode_all V311 (Publish p) r = Ok bs /\ spec_decode V311 bs = Some (canon V311 r (Publish p), []).
+Proof. exact publish_rt311. Qed.
+
+(* CONNECT (the packet ConnectOptions::to_connect_packet builds).  NOTE: valid_connect is what
+   validate_connect_packet_outbound should establish; nothing in the crate calls that function (D17), so
+   for CONNECT the hypothesis is an obligation on the caller *)
+Theorem C02_Connect_V5 : forall c r, valid V5 r (Connect c) = true ->
+  exists bs, impl_encode_all V5 (Connect c) r = Ok bs /\ spec_decode V5 bs = Some (canon V5 r (Connect c), []).
+Proof. exact connect_rt5. Qed.
+Theorem C02_Connect_V311 : forall c r, valid V311 r (Connect c) = true ->
+  exists bs, impl_encode_all V311 (Connect c) r = Ok bs /\ spec_decode V311 bs = Some (canon V311 r (Connect c), []).
+Proof. exact connect_rt311. Qed.
+
+(* non-vacuity *)
 Example C02_example :
-  impl_encode_all V5 Pingreq no_resolution = Ok [192; 0] /\ spec_decode V5 [192; 0] = Some (Pingreq, []).
-Proof. vm_compute. split; reflexivity. Qed.
+  valid V5 no_resolution (Pubrel {| ack_pid := 7; ack_rc := 146; ack_reason := Some [104; 105];
+                                    ack_up := Some [{| up_name := [97]; up_value := [] |}] |}) = true
+  /\ impl_encode_all V5 Pingreq no_resolution = Ok [192; 0] /\ spec_decode V5 [192; 0] = Some (Pingreq, [])
+  /\ encode_call [SU8 1; SBytes [2; 3; 4; 5; 6; 7]; SU16 8] 2 8 = Ok ([1; 2; 3; 4; 5; 6], [SBytes [7]; SU16 8]).
+Proof. vm_compute. repeat split; reflexivity. Qed.
